@@ -25,7 +25,9 @@ RULE = ("bin tables with 1-3 chromosomes (fixed width with short last bin, varia
         "(+ sampled n=3) with distinct values, every weak composition of a sorted stream into 0..4 chunks (empty chunks included), "
         "seeded random sparse/dense/diagonal/empty matrices for n<=7 with values up to 2^31-1, x input form (DataFrame, dict, "
         "ordered chunk iterator of dicts/DataFrames, ArrayLoader with chunksize 1..n+1) x value dtypes/extra columns x h5opts x "
-        "random JSON metadata x assembly names; a separate malformed stream (unsorted, duplicates across chunks, out-of-range ids, "
+        "random JSON metadata x assembly names; dtype of the input bin-id columns {int8, uint8, int16, uint16, int32, uint32, int64} x {sorted frame, "
+        "shuffled frame, shuffled dict, chunk iterator} x storage mode on tables of 12-20 bins and of 300 bins whose pixels reach the highest bin "
+        "ids (dense view compared up to 20 bins, sparse view for 300); a separate malformed stream (unsorted, duplicates across chunks, out-of-range ids, "
         "integer overflow of the output dtype, more records than max_size) is compared model-vs-code only. "
         "non-trivial = at least 2 stored pixels or >= 2 chunks or an off-diagonal pixel or a non-default option; distinct by case hash")
 TRUSTED = ["h5py/HDF5 storage of each column (filters, dtype conversion) is observed through raw reads, not modelled",
@@ -139,10 +141,13 @@ def impl_case(case, path):
         out["pixels"] = [[int(a), int(b_), [v[i] for v in vs]] for i, (a, b_) in enumerate(zip(df["bin1_id"].values, df["bin2_id"].values))]
         dense, sparse = [], []
         for c in cols:
-            m = clr.matrix(balance=False, field=c[0])[:, :]
-            dense.append(_scaled(m, c[1]))
-            out.setdefault("dense_shape", list(m.shape))
             sp = clr.matrix(balance=False, field=c[0], sparse=True)[:, :]
+            if case.get("sparse_only"):
+                out.setdefault("dense_shape", list(sp.shape))
+            else:
+                m = clr.matrix(balance=False, field=c[0])[:, :]
+                dense.append(_scaled(m, c[1]))
+                out.setdefault("dense_shape", list(m.shape))
             dv = _scaled(sp.data, c[1])
             sparse.append(sorted([int(r), int(cc), v] for r, cc, v in zip(sp.row, sp.col, dv)))
         out["dense"] = dense
@@ -178,7 +183,7 @@ def model_expr(case):
     else:
         A = C.lst([C.zl(r) for r in case["array"]])
         body = f"create {d} {fits} {cnt} {C.z(n)} {flags} (map rows_of_px (array_loader {A} {C.z(case['chunksize'])}))"
-    return f"obs_create {C.nat(ncols)} ({body})"
+    return f"{'obs_create_sparse' if case.get('sparse_only') else 'obs_create'} {C.nat(ncols)} ({body})"
 
 
 def parse_model(val):
@@ -244,7 +249,7 @@ def oracle(case, out):
                 D[r[1]][r[0]] += r[2][k]
                 trip.append([r[1], r[0], r[2][k]])
         flat = [D[i][j] for i in range(n) for j in range(n)]
-        if out["dense"][k] != flat:
+        if not case.get("sparse_only") and out["dense"][k] != flat:
             bad.append((f"dense matrix of column {case['cols'][k][0]}", flat, out["dense"][k]))
         if out["sparse"][k] != sorted(trip):
             bad.append((f"sparse matrix of column {case['cols'][k][0]}", sorted(trip)[:12], out["sparse"][k][:12]))
@@ -420,6 +425,43 @@ def gen_cases(ctx):
         case["form"] = form
         cases.append(case)
 
+    # C3. dtype of the INPUT bin-id columns x input form, on tables large enough that bin1 * nbins (and bin1 * nbins + bin2)
+    #     leaves the range of the narrow types: 12-20 bins (int8 / uint8), 300 bins (int16 / uint16); pixels reach the highest ids
+    t = 0
+    for n in ((12, 13, 16, 20, 300) if thorough else (12, 20, 300)):
+        widths = G.BIG_TABLES[n]
+        for dt in G.ID_DTYPES:
+            if not G.id_dtype_holds(dt, n):
+                continue
+            for form in ("frame-sorted", "frame", "dict", "chunks"):
+                for symm in ((True, False) if (thorough or n == 300) else (bool(t % 2),)):
+                    t += 1
+                    keys = {(n - 1, n - 1), (0, n - 1), (n - 2, n - 1), (n - 2, n - 2), (0, 0), (1, n // 2), (n // 2, n // 2 + 1)}
+                    for _ in range(30 if n == 300 else 14):
+                        hi_ = rng.random() < 0.6
+                        i = rng.randint(n - 1 - n // 3, n - 1) if hi_ else rng.randint(0, n - 1)
+                        j = rng.randint(0, n - 1)
+                        keys.add((i, j))
+                    if not symm:
+                        keys |= {(n - 1, 0), (n - 1, n - 2), (n // 2, 0)}
+                    else:
+                        keys = {(min(i, j), max(i, j)) for (i, j) in keys}
+                    rows = [[i, j, [1 + (i * 7 + j * 3) % 97]] for (i, j) in sorted(keys)]
+                    case = {"grp": "id-dtype", "widths": widths, "symm": symm, "cols": DEFAULT_COLS, "rows": rows, "id_dtype": dt}
+                    if n > 40:
+                        case["sparse_only"] = True
+                    if form == "chunks":
+                        case["form"] = "chunks"
+                        case["cuts"] = random_cuts(rng, len(rows))
+                        case["chunkforms"] = [["dict", "df"][(t + q) % 2] for q in range(len(case["cuts"]))]
+                    else:
+                        case["form"] = "dict" if form == "dict" else "frame"
+                        if form != "frame-sorted":
+                            rows = list(rows)
+                            rng.shuffle(rows)
+                            case["rows"] = rows
+                    cases.append(case)
+
     # D. ArrayLoader, every chunksize 1..n+1
     for n in (range(1, 8) if thorough else (1, 2, 3, 4, 6)):
         for rep in range(3 if thorough else 1):
@@ -495,7 +537,8 @@ def gen_cases(ctx):
 def nontrivial(case):
     rows = case.get("rows") or []
     return (len(rows) >= 2 or len(case.get("cuts", [])) >= 2 or any(r[0] != r[1] for r in rows) or case["form"] == "array"
-            or case["cols"] != DEFAULT_COLS or case.get("h5opts", "default") != "default" or bool(case.get("opts")))
+            or case["cols"] != DEFAULT_COLS or case.get("h5opts", "default") != "default" or bool(case.get("opts"))
+            or case.get("id_dtype", "int64") != "int64")
 
 
 # --------------------------------------------------------------------------- run
